@@ -3,25 +3,1257 @@ import Sqljson.Model.Exec
 /-!
 # C18 — Datetime values survive printing, JSON encoding and hostile input
 
-* `layouts_*`: the twenty layout strings of `path/types` cut into the layouts the model interprets
-  (so `String()`, `MarshalJSON`, `ParseTime`, `UnmarshalJSON` of the model read the layouts the Go
-  code passes to `time.Format` / `time.Parse`);
-* calendar arithmetic for **all** years: `civil_of_days_of_civil`, `days_of_civil_of_days` — the
-  conversion between an instant and its civil fields is a bijection on valid dates;
-* constructors in closed form: `new_date`, `new_time`, `new_timetz`, `new_timestamp`, `new_timestamptz`;
-* conversions commute with the context zone: `date_roundtrip`, `timestamp_roundtrip` — date →
-  timestamptz → date and timestamp → timestamptz → timestamp are identities whenever the local time
-  exists in the zone (`Zone.Resolves`), unconditionally in every fixed zone
-  (`date_roundtrip_fixed`, `timestamp_roundtrip_fixed`), and for named zones whenever the first
-  lookup's period contains the instant (`resolves_of_first`);
-* `.string()` inside a path prints `String()`: `path_string_same`;
-* `unmarshalJSON_never_panics` (repaired defect D21): `UnmarshalJSON` of every type returns a value
-  or an error for **every** byte string — short strings, non-strings, `null` — never a panic;
-  `unmarshalJSON_short`: input without room for the quotes is an error.
+Model: `Model/Time.lean`; supporting lemmas: `Props/TimeLemmas.lean`; this file adds the two round
+trips (the layout interpreter run forwards and backwards) and the property-facing statements.
 
-Not proved (validated by the correspondence stream only): `ParseTime(String(v)) = v` and the JSON
-round trip as theorems about the layout interpreter.
+* `layouts_*` (`TimeLemmas`): the twenty layout strings of `path/types` cut into the layouts the
+  model interprets;
+* calendar arithmetic for **all** years: `civilFromDays_daysFromCivil`, `civilFromDays_spec`;
+* constructors in closed form: `newDate_eq`, `newTime_eq`, `newTimeTZ_eq`, `newTimestamp_eq`,
+  `newTimestampTZ_eq`;
+* **`ParseTime(String(v)) = v`**, all five kinds, year 0..9999, whole-minute offsets up to ±24:59,
+  `nsec < 10⁹` (`C18.parse_string_roundtrip`, from `parseTime_toString_date/_time/_timetz/_timestamp/
+  _timestamptz`): `String()` is read back by `ParseTime` as an equal value of the same type — in
+  particular the earlier layouts of `ParseTime`'s list all reject the string;
+* **`UnmarshalJSON(MarshalJSON(v)) = v`**, all five kinds, same hypotheses (`C18.json_roundtrip`, from
+  `unmarshal_marshal_date/_time/_timetz/_timestamp/_timestamptz`), including the choice of the
+  `Z07:00` layout by the two offset-sniffing `UnmarshalJSON` methods (`style_of_canonical`);
+* conversions commute with the context zone: `date_roundtrip`, `timestamp_roundtrip` whenever the
+  local time exists in the zone (`Zone.Resolves`), unconditionally in every fixed zone
+  (`date_roundtrip_fixed`, `timestamp_roundtrip_fixed`), and for named zones whenever the first
+  lookup's period contains the instant (`Zone.resolves_of_first`);
+* `.string()` inside a path prints `String()`: `path_string_same`;
+* `unmarshalJSON_never_panics` (repaired defect D21), `unmarshalJSON_short`.
 -/
+
+set_option linter.unusedSimpArgs false
+set_option linter.unusedVariables false
+
+namespace Sqljson
+namespace Time
+
+/-! ## Round trip `ParseTime(String(v)) = v` -/
+
+abbrev dc (n : Nat) : Char := Nat.digitChar n
+
+theorem lt_ten_cases (d : Nat) (h : d < 10) :
+    d = 0 ∨ d = 1 ∨ d = 2 ∨ d = 3 ∨ d = 4 ∨ d = 5 ∨ d = 6 ∨ d = 7 ∨ d = 8 ∨ d = 9 := by omega
+
+theorem isDigit_dc (d : Nat) (h : d < 10) : isDigit (dc d) = true := by
+  rcases lt_ten_cases d h with h | h | h | h | h | h | h | h | h | h <;> subst h <;> decide
+
+theorem digitVal_dc (d : Nat) (h : d < 10) : digitVal (dc d) = d := by
+  rcases lt_ten_cases d h with h | h | h | h | h | h | h | h | h | h <;> subst h <;> decide
+
+theorem dc_ne (d : Nat) (h : d < 10) (c : Char) (hc : isDigit c = false) : dc d ≠ c := by
+  intro e; rw [← e, isDigit_dc d h] at hc; cases hc
+
+/-- `w` decimal digits of `n`, most significant first -/
+def padDigits : Nat → Nat → List Char
+  | 0, _ => []
+  | w + 1, n => padDigits w (n / 10) ++ [dc (n % 10)]
+
+theorem padDigits_zero (w : Nat) : padDigits w 0 = List.replicate w '0' := by
+  induction w with
+  | zero => rfl
+  | succ k ih => simp [padDigits, ih, List.replicate_succ']
+
+theorem padDigits_length (w n : Nat) : (padDigits w n).length = w := by
+  induction w generalizing n with
+  | zero => rfl
+  | succ k ih => simp [padDigits, ih]
+
+theorem pad_toDigits (w n : Nat) (hw : 0 < w) (h : n < 10 ^ w) :
+    List.replicate (w - (Nat.toDigits 10 n).length) '0' ++ Nat.toDigits 10 n = padDigits w n := by
+  induction w generalizing n with
+  | zero => omega
+  | succ k ih =>
+    by_cases h10 : n < 10
+    · rw [Nat.toDigits_of_lt_base h10]
+      have e1 : n / 10 = 0 := by omega
+      have e2 : n % 10 = n := by omega
+      simp [padDigits, e1, e2, padDigits_zero]
+    · have hk : 0 < k := by
+        cases k with
+        | zero => simp at h; omega
+        | succ j => omega
+      rw [Nat.toDigits_of_base_le (by decide) (by omega)]
+      have hlt : n / 10 < 10 ^ k := by
+        rw [Nat.pow_succ] at h; omega
+      have := ih (n / 10) hk hlt
+      simp only [padDigits, List.length_append, List.length_singleton]
+      rw [← this, ← List.append_assoc]
+      have e : k + 1 - ((Nat.toDigits 10 (n / 10)).length + 1) = k - (Nat.toDigits 10 (n / 10)).length := by omega
+      rw [e]
+
+/-- `appendInt` of a natural number that fits the width is the zero-padded digit string -/
+theorem appendInt_nat (w n : Nat) (hw : 0 < w) (h : n < 10 ^ w) : appendInt (n : Int) w = padDigits w n := by
+  have neg : ¬ ((n : Int) < 0) := by omega
+  simp only [appendInt, neg, if_false, Int.natAbs_natCast, List.nil_append]
+  exact pad_toDigits w n hw h
+
+def d2 (n : Nat) : List Char := [dc (n / 10), dc (n % 10)]
+def d4 (n : Nat) : List Char := [dc (n / 1000), dc (n / 100 % 10), dc (n / 10 % 10), dc (n % 10)]
+
+theorem padDigits_two (n : Nat) (h : n < 100) : padDigits 2 n = d2 n := by
+  have : n / 10 % 10 = n / 10 := by omega
+  simp [padDigits, d2, this]
+
+theorem padDigits_four (n : Nat) (h : n < 10000) : padDigits 4 n = d4 n := by
+  have e1 : n / 10 / 10 / 10 % 10 = n / 1000 := by omega
+  have e2 : n / 10 / 10 % 10 = n / 100 % 10 := by omega
+  simp [padDigits, d4, e1, e2]
+
+theorem appendInt_two (n : Nat) (h : n < 100) : appendInt (n : Int) 2 = d2 n := by
+  rw [appendInt_nat 2 n (by omega) (by omega), padDigits_two n h]
+
+theorem appendInt_four (n : Nat) (h : n < 10000) : appendInt (n : Int) 4 = d4 n := by
+  rw [appendInt_nat 4 n (by omega) (by omega), padDigits_four n h]
+
+/-! ### parser primitives on canonical digit strings -/
+
+theorem getnum_two (n : Nat) (h : n < 100) (fixed : Bool) (r : List Char) :
+    getnum (d2 n ++ r) fixed = some (n, r) := by
+  have h1 : n / 10 < 10 := by omega
+  have h2 : n % 10 < 10 := by omega
+  simp only [d2, List.cons_append, List.nil_append, getnum, isDigit_dc _ h1, isDigit_dc _ h2,
+    digitVal_dc _ h1, digitVal_dc _ h2, Bool.not_true, Bool.false_eq_true, if_false, if_true]
+  congr 2; omega
+
+theorem getYear_four (n : Nat) (h : n < 10000) (r : List Char) :
+    getYear (d4 n ++ r) = some (n, r) := by
+  have h1 : n / 1000 < 10 := by omega
+  have h2 : n / 100 % 10 < 10 := by omega
+  have h3 : n / 10 % 10 < 10 := by omega
+  have h4 : n % 10 < 10 := by omega
+  simp only [d4, List.cons_append, List.nil_append, getYear, isDigit_dc _ h1, isDigit_dc _ h2,
+    isDigit_dc _ h3, isDigit_dc _ h4, digitVal_dc _ h1, digitVal_dc _ h2, digitVal_dc _ h3, digitVal_dc _ h4,
+    Bool.and_self, if_true]
+  congr 2; omega
+
+
+/-- `time.Date` on in-range fields -/
+theorem dateWall_fields (y m d h mi s : Int) (ns : Nat) (hm1 : 1 ≤ m) (hm2 : m ≤ 12)
+    (hh : 0 ≤ h ∧ h < 24) (hmi : 0 ≤ mi ∧ mi < 60) (hs : 0 ≤ s ∧ s < 60) (hns : ns < 1000000000) :
+    dateWall y m d h mi s ns = (daysFromCivil y m d * 86400 + h * 3600 + mi * 60 + s, ns) := by
+  unfold dateWall norm
+  simp only []
+  have e1 : (m - 1) / 12 = 0 := by omega
+  have e2 : (m - 1) % 12 = m - 1 := by omega
+  have e3 : (ns : Int) / 1000000000 = 0 := by omega
+  have e4 : (ns : Int) % 1000000000 = ns := by omega
+  simp only [e1, e2, e3, e4, Int.add_zero, Int.sub_add_cancel, Int.toNat_natCast]
+  have e5 : s / 60 = 0 := by omega
+  have e6 : s % 60 = s := by omega
+  simp only [e5, e6, Int.add_zero]
+  have e7 : mi / 60 = 0 := by omega
+  have e8 : mi % 60 = mi := by omega
+  simp only [e7, e8, Int.add_zero]
+  have e9 : h / 24 = 0 := by omega
+  have e10 : h % 24 = h := by omega
+  simp only [e9, e10, Int.add_zero]
+  rw [daysFromCivil_day]
+
+theorem skipLit_same (c : Char) (hc : c ≠ ' ') (r : List Char) : skipLit c (c :: r) = some r := by
+  simp [skipLit, hc]
+
+/-! ### one step of the parse loop -/
+
+theorem parseLayout_step {e : El} {rest : Layout} {acc acc' : Acc} {v v' : List Char}
+    (h : parseEl e (nextStd rest) acc v = some (acc', v')) :
+    parseLayout (e :: rest) acc v = parseLayout rest acc' v' := by
+  simp only [parseLayout, h]
+
+theorem parseLayout_fail {e : El} {rest : Layout} {acc : Acc} {v : List Char}
+    (h : parseEl e (nextStd rest) acc v = none) : parseLayout (e :: rest) acc v = none := by
+  simp only [parseLayout, h]
+
+theorem parseLayout_nil (acc : Acc) : parseLayout [] acc [] = some acc := rfl
+
+theorem parseEl_lit (c : Char) (hc : c ≠ ' ') (nx : Option El) (acc : Acc) (r : List Char) :
+    parseEl (.lit c) nx acc (c :: r) = some (acc, r) := by
+  simp [parseEl, skipLit, hc]
+
+theorem parseEl_lit_ne (c x : Char) (hc : c ≠ ' ') (hx : x ≠ c) (nx : Option El) (acc : Acc) (r : List Char) :
+    parseEl (.lit c) nx acc (x :: r) = none := by
+  simp [parseEl, skipLit, hc, hx]
+
+theorem parseEl_year (nx : Option El) (acc : Acc) (y : Nat) (hy : y < 10000) (r : List Char) :
+    parseEl .year nx acc (d4 y ++ r) = some ({ acc with year := y }, r) := by
+  simp [parseEl, getYear_four y hy]
+
+theorem parseEl_month (nx : Option El) (acc : Acc) (m : Nat) (h1 : 1 ≤ m) (h2 : m ≤ 12) (r : List Char) :
+    parseEl .month nx acc (d2 m ++ r) = some ({ acc with month := m }, r) := by
+  have h0 : ¬ (m = 0 ∨ 12 < m) := by omega
+  simp [parseEl, getnum_two m (by omega), h0]
+
+theorem parseEl_day (nx : Option El) (acc : Acc) (d : Nat) (h : d < 100) (r : List Char) :
+    parseEl .day nx acc (d2 d ++ r) = some ({ acc with day := d }, r) := by
+  simp [parseEl, getnum_two d h]
+
+theorem parseEl_hour (nx : Option El) (acc : Acc) (h : Nat) (hh : h < 24) (r : List Char) :
+    parseEl .hour nx acc (d2 h ++ r) = some ({ acc with hour := h }, r) := by
+  have h0 : ¬ 24 ≤ h := by omega
+  simp [parseEl, getnum_two h (by omega), h0]
+
+theorem parseEl_minute (nx : Option El) (acc : Acc) (m : Nat) (hm : m < 60) (r : List Char) :
+    parseEl .minute nx acc (d2 m ++ r) = some ({ acc with min := m }, r) := by
+  have h0 : ¬ 60 ≤ m := by omega
+  simp [parseEl, getnum_two m (by omega), h0]
+
+/-- `time.Parse("2006-01-02", "YYYY-MM-DD")` -/
+theorem goParse_date (y m d : Nat) (hy : y < 10000) (hm1 : 1 ≤ m) (hm2 : m ≤ 12) (hd1 : 1 ≤ d)
+    (hd2 : (d : Int) ≤ daysIn m y) :
+    goParse dateL (d4 y ++ '-' :: (d2 m ++ '-' :: (d2 d ++ []))) = some ⟨daysFromCivil y m d * 86400, 0, 0⟩ := by
+  have hd100 : d < 100 := by
+    have : daysIn (m : Int) (y : Int) ≤ 31 := by unfold daysIn; split <;> (try split) <;> omega
+    omega
+  have hd0 : ¬ (d < 1 ∨ daysIn (m : Int) (y : Int) < (d : Int)) := by omega
+  unfold goParse dateL ymdL
+  rw [parseLayout_step (parseEl_year _ _ y hy _), parseLayout_step (parseEl_lit '-' (by decide) _ _ _),
+    parseLayout_step (parseEl_month _ _ m hm1 hm2 _), parseLayout_step (parseEl_lit '-' (by decide) _ _ _),
+    parseLayout_step (parseEl_day _ _ d hd100 _), parseLayout_nil]
+  simp only [finishParse]
+  have := dateWall_fields y m d 0 0 0 0 (by omega) (by omega) (by omega) (by omega) (by omega) (by omega)
+  simp only [Int.natCast_zero] at this
+  simp [this]
+  exact ⟨by omega, hd2⟩
+
+theorem format_dateL (t : GoTime) :
+    format dateL t = appendInt t.civil.year 4 ++ '-' :: (appendInt t.civil.month 2 ++ '-' :: (appendInt t.civil.day 2 ++ [])) := by
+  simp [format, dateL, ymdL, fmtEl]
+
+/-- **C18, Date**: `ParseTime(d.String())` returns `d` (any precision argument) for every date with
+    a year in 0..9999 -/
+theorem parseTime_toString_date (env : Env) (p : Int) (d : DateTime) (wf : DateWF d)
+    (hy0 : 0 ≤ (civil d).year) (hy1 : (civil d).year ≤ 9999) : parseTime env (toString d) p = some d := by
+  cases d with | mk k s n o =>
+  obtain ⟨hk, hn, ho, hm⟩ := wf
+  simp only at hk hn ho hm
+  subst hk; subst hn; subst ho
+  obtain ⟨hday, hm1, hm2, hd1, hd2⟩ := civilFromDays_spec (s / 86400)
+  simp only [civil, DateTime.t, GoTime.civil, Int.add_zero, civilOfUnix] at hy0 hy1
+  simp only [toString, outLayout, format_dateL, DateTime.t, GoTime.civil, Int.add_zero, civilOfUnix]
+  generalize civilFromDays (s / 86400) = c at *
+  obtain ⟨y, m, dd⟩ := c
+  simp only at *
+  obtain ⟨yN, hyN⟩ : ∃ yN : Nat, y = yN := ⟨y.toNat, by omega⟩
+  obtain ⟨mN, hmN⟩ : ∃ mN : Nat, m = mN := ⟨m.toNat, by omega⟩
+  obtain ⟨dN, hdN⟩ : ∃ dN : Nat, dd = dN := ⟨dd.toNat, by omega⟩
+  subst hyN; subst hmN; subst hdN
+  have hd100 : dN < 100 := by
+    have : daysIn (mN : Int) (yN : Int) ≤ 31 := by unfold daysIn; split <;> (try split) <;> omega
+    omega
+  rw [appendInt_four yN (by omega), appendInt_two mN (by omega), appendInt_two dN hd100]
+  unfold parseTime
+  rw [goParse_date yN mN dN (by omega) (by omega) (by omega) (by omega) hd2]
+  simp only [newDate_eq, Int.add_zero]
+  rw [hday]
+  simp
+  omega
+
+/-! ### fractional seconds -/
+
+def allDigits (l : List Char) : Prop := ∀ c ∈ l, isDigit c = true
+
+theorem allDigits_padDigits (w n : Nat) : allDigits (padDigits w n) := by
+  induction w generalizing n with
+  | zero => intro c hc; cases hc
+  | succ k ih =>
+    intro c hc
+    simp only [padDigits, List.mem_append, List.mem_singleton] at hc
+    rcases hc with hc | hc
+    · exact ih _ c hc
+    · subst hc; exact isDigit_dc _ (by omega)
+
+theorem digitsVal_append_one (l : List Char) (c : Char) : digitsVal (l ++ [c]) = digitsVal l * 10 + digitVal c := by
+  simp [digitsVal, List.foldl_append]
+
+theorem digitsVal_padDigits (w n : Nat) (h : n < 10 ^ w) : digitsVal (padDigits w n) = n := by
+  induction w generalizing n with
+  | zero => simp at h; subst h; rfl
+  | succ k ih =>
+    have hlt : n / 10 < 10 ^ k := by rw [Nat.pow_succ] at h; omega
+    rw [padDigits, digitsVal_append_one, ih _ hlt, digitVal_dc _ (by omega)]
+    omega
+
+theorem digitsVal_append_zeros (l : List Char) (k : Nat) :
+    digitsVal (l ++ List.replicate k '0') = digitsVal l * 10 ^ k := by
+  induction k with
+  | zero => simp
+  | succ j ih =>
+    rw [List.replicate_succ', ← List.append_assoc, digitsVal_append_one, ih, Nat.pow_succ]
+    have : digitVal '0' = 0 := by decide
+    rw [this, Nat.mul_assoc]; omega
+
+theorem takeWhile_zero_eq (l : List Char) :
+    l.takeWhile (· == '0') = List.replicate (l.takeWhile (· == '0')).length '0' := by
+  induction l with
+  | nil => rfl
+  | cons c cs ih =>
+    by_cases h : c = '0'
+    · subst h; simp only [List.takeWhile_cons, beq_self_eq_true, if_true, List.length_cons, List.replicate_succ]
+      rw [← ih]
+    · simp [List.takeWhile_cons, h]
+
+/-- a digit string is its trimmed form followed by the trimmed zeros -/
+theorem trimZeros_split (p : List Char) :
+    ∃ k, p = trimZeros p ++ List.replicate k '0' ∧ (trimZeros p).length + k = p.length := by
+  refine ⟨(p.reverse.takeWhile (· == '0')).length, ?_, ?_⟩
+  · have h := List.takeWhile_append_dropWhile (p := (· == '0')) (l := p.reverse)
+    have h2 : p = (p.reverse.dropWhile (· == '0')).reverse ++ (p.reverse.takeWhile (· == '0')).reverse := by
+      have := congrArg List.reverse h
+      simp only [List.reverse_append, List.reverse_reverse] at this
+      exact this.symm
+    rw [takeWhile_zero_eq p.reverse, List.reverse_replicate] at h2
+    simp only [List.length_replicate] at h2
+    exact h2
+  · have h := List.takeWhile_append_dropWhile (p := (· == '0')) (l := p.reverse)
+    have := congrArg List.length h
+    simp only [List.length_append, List.length_reverse] at this
+    simp only [trimZeros, List.length_reverse]
+    omega
+
+theorem allDigits_trimZeros (p : List Char) (h : allDigits p) : allDigits (trimZeros p) := by
+  intro c hc
+  apply h c
+  simp only [trimZeros, List.mem_reverse] at hc
+  have := List.dropWhile_sublist (p := (· == '0')) (l := p.reverse)
+  exact List.mem_reverse.1 (this.subset hc)
+
+theorem spanDigits_append (ds r : List Char) (hd : allDigits ds)
+    (hr : ∀ c rest, r = c :: rest → isDigit c = false) : spanDigits (ds ++ r) = (ds, r) := by
+  induction ds with
+  | nil =>
+    cases r with
+    | nil => rfl
+    | cons c rest => simp [spanDigits, hr c rest rfl]
+  | cons c cs ih =>
+    have hc : isDigit c = true := hd c (by simp)
+    have := ih (fun x hx => hd x (by simp [hx]))
+    simp [spanDigits, hc, this]
+
+/-- the fraction `appendNano` prints is read back by `parseNanoseconds` -/
+theorem frac_roundtrip (ns : Nat) (hns : ns < 1000000000) (hpos : ns ≠ 0) (r : List Char)
+    (hr : ∀ c rest, r = c :: rest → isDigit c = false) :
+    hasFrac (fmtFrac9 ns ++ r) = true ∧ takeFrac (fmtFrac9 ns ++ r) = (ns, r) := by
+  have hp : appendInt (ns : Int) 9 = padDigits 9 ns := appendInt_nat 9 ns (by omega) (by omega)
+  obtain ⟨k, hsplit, hlen⟩ := trimZeros_split (padDigits 9 ns)
+  have hdig := allDigits_trimZeros _ (allDigits_padDigits 9 ns)
+  have hval : digitsVal (trimZeros (padDigits 9 ns)) * 10 ^ k = ns := by
+    rw [← digitsVal_append_zeros, ← hsplit, digitsVal_padDigits 9 ns (by omega)]
+  have hl9 := padDigits_length 9 ns
+  have hne : trimZeros (padDigits 9 ns) ≠ [] := by
+    intro e; rw [e] at hval; simp [digitsVal] at hval; omega
+  simp only [fmtFrac9, hpos, if_false, hp]
+  generalize trimZeros (padDigits 9 ns) = ds at *
+  cases ds with
+  | nil => exact absurd rfl hne
+  | cons c cs =>
+    have hc : isDigit c = true := hdig c (by simp)
+    refine ⟨by simp [hasFrac, commaOrPeriod, hc], ?_⟩
+    simp only [List.cons_append, takeFrac]
+    rw [← List.cons_append, spanDigits_append (c :: cs) r hdig hr]
+    simp only [nanosOfDigits]
+    have hle : (c :: cs).length ≤ 9 := by omega
+    rw [List.take_of_length_le hle]
+    have : 9 - (c :: cs).length = k := by omega
+    rw [this, hval]
+
+/-! ### shared parse steps -/
+
+/-- the rest of the input does not continue a digit run and does not look like a fraction -/
+structure CleanRest (r : List Char) : Prop where
+  nodigit : ∀ c rest, r = c :: rest → isDigit c = false
+  nofrac : hasFrac r = false
+
+theorem cleanRest_nil : CleanRest [] := ⟨fun _ _ h => (by cases h), rfl⟩
+
+theorem cleanRest_sign (c : Char) (hc : c = '+' ∨ c = '-') (rest : List Char) : CleanRest (c :: rest) := by
+  have hd : isDigit c = false := by rcases hc with h | h <;> subst h <;> decide
+  have hp : commaOrPeriod c = false := by rcases hc with h | h <;> subst h <;> decide
+  refine ⟨fun c' r' e => ?_, ?_⟩
+  · cases e; exact hd
+  · cases rest with
+    | nil => rfl
+    | cons x xs => simp [hasFrac, hp]
+
+abbrev notFrac (nx : Option El) : Prop := (nx.map El.isFrac).getD false = false
+
+theorem parseEl_second (nx : Option El) (hnx : notFrac nx) (acc : Acc) (s ns : Nat)
+    (hs : s < 60) (hns : ns < 1000000000) (r : List Char) (hr : CleanRest r) :
+    parseEl .second nx acc (d2 s ++ (fmtFrac9 ns ++ r)) =
+      some ({ acc with sec := s, nsec := if ns = 0 then acc.nsec else ns }, r) := by
+  have h0 : ¬ 60 ≤ s := by omega
+  unfold notFrac at hnx
+  by_cases hz : ns = 0
+  · subst hz
+    have : fmtFrac9 0 = [] := rfl
+    simp [parseEl, getnum_two s (by omega), h0, this, hr.nofrac]
+  · obtain ⟨h1, h2⟩ := frac_roundtrip ns hns hz r hr.nodigit
+    simp [parseEl, getnum_two s (by omega), h0, h1, h2, hnx, hz]
+
+theorem hmsL_append (L : Layout) :
+    hmsL ++ L = .hour :: .lit ':' :: .minute :: .lit ':' :: .second :: L := rfl
+
+theorem ymdL_append (L : Layout) :
+    ymdL ++ L = .year :: .lit '-' :: .month :: .lit '-' :: .day :: L := rfl
+
+/-- `hh:mm:ss[.fffffffff]` is consumed by the clock part of any layout without a fraction chunk -/
+theorem parse_hms (L : Layout) (hL : notFrac (nextStd L)) (acc : Acc) (hacc : acc.nsec = 0) (h mi s ns : Nat)
+    (hh : h < 24) (hmi : mi < 60) (hs : s < 60) (hns : ns < 1000000000) (r : List Char) (hr : CleanRest r) :
+    parseLayout (hmsL ++ L) acc (d2 h ++ ':' :: (d2 mi ++ ':' :: (d2 s ++ (fmtFrac9 ns ++ r)))) =
+      parseLayout L { acc with hour := h, min := mi, sec := s, nsec := ns } r := by
+  rw [hmsL_append, parseLayout_step (parseEl_hour _ _ h hh _), parseLayout_step (parseEl_lit ':' (by decide) _ _ _),
+    parseLayout_step (parseEl_minute _ _ mi hmi _), parseLayout_step (parseEl_lit ':' (by decide) _ _ _),
+    parseLayout_step (parseEl_second _ hL _ s ns hs hns r hr)]
+  congr 1
+  by_cases hz : ns = 0 <;> simp [hz, hacc]
+
+/-- `YYYY-MM-DD` is consumed by the date part of any layout -/
+theorem parse_ymd (L : Layout) (acc : Acc) (y m d : Nat) (hy : y < 10000) (hm1 : 1 ≤ m) (hm2 : m ≤ 12)
+    (hd : d < 100) (r : List Char) :
+    parseLayout (ymdL ++ L) acc (d4 y ++ '-' :: (d2 m ++ '-' :: (d2 d ++ r))) =
+      parseLayout L { acc with year := y, month := m, day := d } r := by
+  rw [ymdL_append, parseLayout_step (parseEl_year _ _ y hy _), parseLayout_step (parseEl_lit '-' (by decide) _ _ _),
+    parseLayout_step (parseEl_month _ _ m hm1 hm2 _), parseLayout_step (parseEl_lit '-' (by decide) _ _ _),
+    parseLayout_step (parseEl_day _ _ d hd _)]
+
+/-- a clock string is not a date: the third character is `:` -/
+theorem parse_ymd_on_clock (L : Layout) (acc : Acc) (h : Nat) (r : List Char) :
+    parseLayout (ymdL ++ L) acc (d2 h ++ ':' :: r) = none := by
+  rw [ymdL_append]
+  apply parseLayout_fail
+  have hc : isDigit ':' = false := by decide
+  cases r with
+  | nil => simp [parseEl, d2, getYear]
+  | cons c cs => simp [parseEl, d2, getYear, hc]
+
+theorem parseEl_hour_two (nx : Option El) (acc : Acc) (a b : Nat) (ha : a < 10) (hb : b < 10) (rest : List Char) :
+    parseEl .hour nx acc (dc a :: dc b :: rest) =
+      if a * 10 + b ≥ 24 then none else some ({ acc with hour := a * 10 + b }, rest) := by
+  simp [parseEl, getnum, isDigit_dc _ ha, isDigit_dc _ hb, digitVal_dc _ ha, digitVal_dc _ hb]
+
+/-- a date string is not a clock: after the two hour digits comes a digit, not `:` -/
+theorem parse_hms_on_year (L : Layout) (acc : Acc) (y : Nat) (hy : y < 10000) (r : List Char) :
+    parseLayout (hmsL ++ L) acc (d4 y ++ r) = none := by
+  have h1 : y / 1000 < 10 := by omega
+  have h2 : y / 100 % 10 < 10 := by omega
+  have h3 : y / 10 % 10 < 10 := by omega
+  rw [hmsL_append]
+  simp only [d4, List.cons_append, List.nil_append]
+  by_cases hge : y / 1000 * 10 + y / 100 % 10 ≥ 24
+  · apply parseLayout_fail
+    rw [parseEl_hour_two _ _ _ _ h1 h2]; simp [hge]
+  · have := parseEl_hour_two (nextStd (.lit ':' :: .minute :: .lit ':' :: .second :: L)) acc _ _ h1 h2
+      (dc (y / 10 % 10) :: dc (y % 10) :: r)
+    simp only [hge, if_false] at this
+    rw [parseLayout_step this]
+    apply parseLayout_fail
+    exact parseEl_lit_ne ':' _ (by decide) (dc_ne _ h3 ':' (by decide)) _ _ _
+
+/-! ### Time -/
+
+/-- a `Time` as `NewTime` makes it -/
+structure TimeWF (d : DateTime) : Prop where
+  kind : d.kind = .time
+  off : d.off = 0
+  nsec : d.nsec < 1000000000
+  lo : yearZero ≤ d.sec
+  hi : d.sec < yearZero + 86400
+
+theorem format_timeFracL (t : GoTime) :
+    format timeFracL t = appendInt t.civil.hour 2 ++ ':' :: (appendInt t.civil.min 2 ++ ':' ::
+      (appendInt t.civil.sec 2 ++ (fmtFrac9 t.nsec ++ []))) := by
+  simp [format, timeFracL, hmsL, fmtEl]
+
+/-- the clock fields of a wall-clock count, as naturals -/
+theorem clock_nat (w : Int) : ∃ h mi s : Nat, h < 24 ∧ mi < 60 ∧ s < 60 ∧
+    (civilOfUnix w).hour = h ∧ (civilOfUnix w).min = mi ∧ (civilOfUnix w).sec = s := by
+  exact ⟨(w % 86400 / 3600).toNat, (w % 86400 % 3600 / 60).toNat, (w % 86400 % 60).toNat, by omega, by omega,
+    by omega, by simp only [civilOfUnix]; omega, by simp only [civilOfUnix]; omega, by simp only [civilOfUnix]; omega⟩
+
+theorem adjustPrecision_none (t : GoTime) : adjustPrecision t (-1) = t := by
+  simp [adjustPrecision]
+
+theorem finishParse_clock (h mi s ns : Nat) (w : Int) (hns : ns < 1000000000)
+    (eh : (civilOfUnix w).hour = h) (em : (civilOfUnix w).min = mi) (es : (civilOfUnix w).sec = s) :
+    finishParse { hour := h, min := mi, sec := s, nsec := ns } = some ⟨yearZero + w % 86400, ns, 0⟩ := by
+  have := dateWall_clock w ns hns
+  rw [eh, em, es] at this
+  have hd : daysIn 1 0 = 31 := by decide
+  simp [finishParse, this, hd]
+
+/-- **C18, Time**: `ParseTime(t.String())` returns `t` -/
+theorem parseTime_toString_time (env : Env) (d : DateTime) (wf : TimeWF d) :
+    parseTime env (toString d) (-1) = some d := by
+  cases d with | mk k w n o =>
+  obtain ⟨hk, ho, hn, hlo, hhi⟩ := wf
+  simp only at hk ho hn hlo hhi
+  subst hk; subst ho
+  obtain ⟨h, mi, s, hh, hmi, hs, eh, em, es⟩ := clock_nat w
+  simp only [toString, outLayout, format_timeFracL, DateTime.t, GoTime.civil, Int.add_zero, eh, em, es]
+  rw [appendInt_two h (by omega), appendInt_two mi (by omega), appendInt_two s (by omega)]
+  have hparse : ∀ (L : Layout) (hL : notFrac (nextStd L)),
+      parseLayout (hmsL ++ L) {} (d2 h ++ ':' :: (d2 mi ++ ':' :: (d2 s ++ (fmtFrac9 n ++ [])))) =
+        parseLayout L { hour := h, min := mi, sec := s, nsec := n } [] :=
+    fun L hL => parse_hms L hL {} rfl h mi s n hh hmi hs hn [] cleanRest_nil
+  unfold parseTime
+  -- not a date
+  have e1 : goParse dateL (d2 h ++ ':' :: (d2 mi ++ ':' :: (d2 s ++ (fmtFrac9 n ++ [])))) = none := by
+    have := parse_ymd_on_clock [] {} h (d2 mi ++ ':' :: (d2 s ++ (fmtFrac9 n ++ [])))
+    simp only [goParse, dateL]; rw [List.append_nil] at this; rw [this]
+  -- not a time with zone: the zone is missing
+  have e2 : firstParse timeTZLayouts (d2 h ++ ':' :: (d2 mi ++ ':' :: (d2 s ++ (fmtFrac9 n ++ [])))) = none := by
+    simp only [firstParse, timeTZLayouts, goParse, timeTZHourL, timeTZMinL]
+    rw [hparse _ rfl, hparse _ rfl]
+    simp [parseLayout, parseEl, parseOffset]
+  -- a time
+  have e3 : goParse timeL (d2 h ++ ':' :: (d2 mi ++ ':' :: (d2 s ++ (fmtFrac9 n ++ [])))) =
+      some ⟨yearZero + w % 86400, n, 0⟩ := by
+    have := hparse [] rfl
+    rw [List.append_nil] at this
+    simp only [goParse, timeL, this, parseLayout_nil]
+    exact finishParse_clock h mi s n w hn eh em es
+  rw [e1, e2, e3]
+  simp only []
+  rw [adjustPrecision_none, newTime_eq _ hn]
+  simp only [Int.add_zero, yearZero] at *
+  have : (-62167219200 + w % 86400) % 86400 = w % 86400 := by omega
+  rw [this]
+  have : -62167219200 + w % 86400 = w := by omega
+  simp [this]
+
+/-! ### zone offsets -/
+
+/-- a whole-minute offset that `time.Parse` reads back: |off| ≤ 24:59 -/
+structure OffsetOK (off : Int) : Prop where
+  minute : off % 60 = 0
+  bound : off.natAbs < 90000
+
+def sgnChar (off : Int) : Char := if off < 0 then '-' else '+'
+
+/-- the text `-07:00` prints for a whole-minute offset -/
+def tzStr (off : Int) : List Char :=
+  sgnChar off :: (d2 (off.natAbs / 60 / 60) ++ ':' :: (d2 (off.natAbs / 60 % 60) ++ []))
+
+theorem fmtTz_colon (off : Int) (h : OffsetOK off) : fmtTz false .colon off = tzStr off := by
+  obtain ⟨hm, hb⟩ := h
+  have hdvd : (60 : Int) ∣ off := Int.dvd_of_emod_eq_zero hm
+  have e0 : Int.tdiv off 60 = off / 60 := Int.tdiv_eq_ediv_of_dvd hdvd
+  simp only [fmtTz, e0, Bool.false_eq_true, and_false, if_false, tzStr, sgnChar]
+  by_cases hneg : off < 0
+  · have h1 : off / 60 < 0 := by omega
+    have e1 : -(off / 60) / 60 = ((off.natAbs / 60 / 60 : Nat) : Int) := by omega
+    have e2 : -(off / 60) % 60 = ((off.natAbs / 60 % 60 : Nat) : Int) := by omega
+    simp only [h1, hneg, if_true, e1, e2, reduceCtorEq, if_false]
+    rw [appendInt_two _ (by omega), appendInt_two _ (by omega)]
+    simp
+  · have h1 : ¬ off / 60 < 0 := by omega
+    have e1 : off / 60 / 60 = ((off.natAbs / 60 / 60 : Nat) : Int) := by omega
+    have e2 : off / 60 % 60 = ((off.natAbs / 60 % 60 : Nat) : Int) := by omega
+    simp only [h1, hneg, if_false, e1, e2, reduceCtorEq]
+    rw [appendInt_two _ (by omega), appendInt_two _ (by omega)]
+    simp
+
+theorem two_d2 (n : Nat) (h : n < 100) (_r : List Char) :
+    ∀ a b, d2 n = [a, b] → two a b = some n := by
+  intro a b e
+  simp only [d2, List.cons.injEq, and_true] at e
+  obtain ⟨ea, eb⟩ := e
+  subst ea; subst eb
+  have h1 : n / 10 < 10 := by omega
+  have h2 : n % 10 < 10 := by omega
+  simp only [two, isDigit_dc _ h1, isDigit_dc _ h2, digitVal_dc _ h1, digitVal_dc _ h2, Bool.and_self, if_true]
+  congr 1; omega
+
+theorem sgn_ne_Z (off : Int) : sgnChar off ≠ 'Z' := by unfold sgnChar; split <;> decide
+
+theorem signOf_sgn (off : Int) : signOf (sgnChar off) = some (if off < 0 then -1 else 1) := by
+  unfold sgnChar; split <;> rfl
+
+/-- `Z07:00` reads `±hh:mm` back as the offset -/
+theorem parseEl_tz_colon (nx : Option El) (acc : Acc) (off : Int) (h : OffsetOK off) (r : List Char) :
+    parseEl (.tz true .colon) nx acc (tzStr off ++ r) = some ({ acc with zoneOffset := off }, r) := by
+  obtain ⟨hm, hb⟩ := h
+  have hh : off.natAbs / 60 / 60 < 100 := by omega
+  have hmm : off.natAbs / 60 % 60 < 100 := by omega
+  have t1 := two_d2 _ hh [] _ _ rfl
+  have t2 := two_d2 _ hmm [] _ _ rfl
+  have hZ := sgn_ne_Z off
+  have h24 : ¬ (off.natAbs / 60 / 60 > 24 ∨ off.natAbs / 60 % 60 > 60) := by omega
+  simp only [tzStr, d2, List.cons_append, List.nil_append, parseEl]
+  split
+  · rename_i heq; simp only [List.cons.injEq] at heq; exact absurd heq.1 hZ
+  · simp only [parseOffset, if_true, beq_self_eq_true, t1, t2, mkOffset, signOf_sgn]
+    have h24a : ¬ 24 < off.natAbs / 60 / 60 := by omega
+    have h24b : ¬ 60 < off.natAbs / 60 % 60 := by omega
+    have hval : (if off < 0 then -1 else 1) * (((off.natAbs / 60 / 60 * 60 + off.natAbs / 60 % 60) * 60 + 0 : Nat) : Int) = off := by
+      split <;> omega
+    simp only [h24a, h24b, decide_false, Bool.or_self, Bool.false_eq_true, if_false, hval]
+    simp
+
+/-- `Z07` does not consume `±hh:mm`: the minutes are left over -/
+theorem parse_tz_short_fails (acc : Acc) (off : Int) :
+    parseLayout [.tz true .short] acc (tzStr off ++ []) = none := by
+  have hZ := sgn_ne_Z off
+  have hel : parseEl (.tz true .short) (nextStd []) acc (tzStr off ++ []) = none ∨
+      ∃ acc', parseEl (.tz true .short) (nextStd []) acc (tzStr off ++ []) =
+        some (acc', ':' :: (d2 (off.natAbs / 60 % 60) ++ [])) := by
+    simp only [tzStr, d2, List.cons_append, List.nil_append, List.append_nil, parseEl]
+    split
+    · rename_i heq; simp only [List.cons.injEq] at heq; exact absurd heq.1 hZ
+    · simp only [parseOffset]
+      cases mkOffset (sgnChar off) (two (dc (off.natAbs / 60 / 60 / 10)) (dc (off.natAbs / 60 / 60 % 10))) (some 0) (some 0) with
+      | none => left; rfl
+      | some o => right; exact ⟨_, rfl⟩
+  rcases hel with h | ⟨acc', h⟩
+  · exact parseLayout_fail h
+  · rw [parseLayout_step h]; rfl
+
+/-! ### TimeTZ -/
+
+/-- a `TimeTZ` as `NewTimeTZ` makes it, with a whole-minute offset -/
+structure TimeTZWF (d : DateTime) : Prop where
+  kind : d.kind = .timetz
+  nsec : d.nsec < 1000000000
+  off : OffsetOK d.off
+  lo : yearZero ≤ d.sec + d.off
+  hi : d.sec + d.off < yearZero + 86400
+
+theorem format_timeTZOutL (t : GoTime) :
+    format timeTZOutL t = appendInt t.civil.hour 2 ++ ':' :: (appendInt t.civil.min 2 ++ ':' ::
+      (appendInt t.civil.sec 2 ++ (fmtFrac9 t.nsec ++ fmtTz false .colon t.off))) := by
+  simp [format, timeTZOutL, timeFracL, hmsL, fmtEl]
+
+theorem cleanRest_tzStr (off : Int) (r : List Char) : CleanRest (tzStr off ++ r) := by
+  unfold tzStr
+  exact cleanRest_sign _ (by unfold sgnChar; split <;> simp) _
+
+theorem finishParse_clock_off (h mi s ns : Nat) (w off : Int) (hns : ns < 1000000000) (hoff : off ≠ -1)
+    (eh : (civilOfUnix w).hour = h) (em : (civilOfUnix w).min = mi) (es : (civilOfUnix w).sec = s) :
+    finishParse { hour := h, min := mi, sec := s, nsec := ns, zoneOffset := off } =
+      some ⟨yearZero + w % 86400 - off, ns, off⟩ := by
+  have := dateWall_clock w ns hns
+  rw [eh, em, es] at this
+  have hd : daysIn 1 0 = 31 := by decide
+  simp [finishParse, this, hd, hoff]
+
+/-- **C18, TimeTZ**: `ParseTime(t.String())` returns `t` for whole-minute offsets up to ±24:59 -/
+theorem parseTime_toString_timetz (env : Env) (d : DateTime) (wf : TimeTZWF d) :
+    parseTime env (toString d) (-1) = some d := by
+  cases d with | mk k u n o =>
+  obtain ⟨hk, hn, hoff, hlo, hhi⟩ := wf
+  simp only at hk hn hoff hlo hhi
+  subst hk
+  obtain ⟨h, mi, s, hh, hmi, hs, eh, em, es⟩ := clock_nat (u + o)
+  simp only [toString, outLayout, format_timeTZOutL, DateTime.t, GoTime.civil, eh, em, es, fmtTz_colon o hoff]
+  rw [appendInt_two h (by omega), appendInt_two mi (by omega), appendInt_two s (by omega)]
+  have hparse : ∀ (L : Layout) (hL : notFrac (nextStd L)),
+      parseLayout (hmsL ++ L) {} (d2 h ++ ':' :: (d2 mi ++ ':' :: (d2 s ++ (fmtFrac9 n ++ (tzStr o ++ []))))) =
+        parseLayout L { hour := h, min := mi, sec := s, nsec := n } (tzStr o ++ []) :=
+    fun L hL => parse_hms L hL {} rfl h mi s n hh hmi hs hn _ (cleanRest_tzStr o [])
+  have happ : tzStr o = tzStr o ++ [] := (List.append_nil _).symm
+  rw [happ]
+  unfold parseTime
+  have e1 : goParse dateL (d2 h ++ ':' :: (d2 mi ++ ':' :: (d2 s ++ (fmtFrac9 n ++ (tzStr o ++ []))))) = none := by
+    have := parse_ymd_on_clock [] {} h (d2 mi ++ ':' :: (d2 s ++ (fmtFrac9 n ++ (tzStr o ++ []))))
+    simp only [goParse, dateL]; rw [List.append_nil] at this; rw [this]
+  have hne : o ≠ -1 := by have := hoff.minute; omega
+  have e2 : firstParse timeTZLayouts (d2 h ++ ':' :: (d2 mi ++ ':' :: (d2 s ++ (fmtFrac9 n ++ (tzStr o ++ []))))) =
+      some ⟨yearZero + (u + o) % 86400 - o, n, o⟩ := by
+    simp only [firstParse, timeTZLayouts, goParse, timeTZHourL, timeTZMinL]
+    rw [hparse _ rfl, hparse _ rfl, parse_tz_short_fails]
+    simp only []
+    rw [parseLayout_step (parseEl_tz_colon _ _ o hoff []), parseLayout_nil]
+    simp only []
+    rw [finishParse_clock_off h mi s n (u + o) o hn hne eh em es]
+  rw [e1, e2]
+  simp only []
+  rw [adjustPrecision_none, newTimeTZ_eq _ hn]
+  simp only [yearZero] at *
+  have e : (-62167219200 + (u + o) % 86400 - o + o) % 86400 = (u + o) % 86400 := by omega
+  rw [e]
+  have : -62167219200 + (u + o) % 86400 - o = u := by omega
+  simp [this]
+
+/-! ### Timestamp and TimestampTZ -/
+
+theorem parseEl_space_ne (x : Char) (hx : x ≠ ' ') (nx : Option El) (acc : Acc) (r : List Char) :
+    parseEl (.lit ' ') nx acc (x :: r) = none := by
+  simp [parseEl, skipLit, hx]
+
+theorem parse_tz_on_nil (iso : Bool) (st : TzStyle) (acc : Acc) : parseLayout [.tz iso st] acc [] = none := by
+  cases iso <;> cases st <;> simp [parseLayout, parseEl, parseOffset]
+
+theorem timestampL_eq (sep : Char) (L : Layout) :
+    timestampL sep ++ L = ymdL ++ (.lit sep :: (hmsL ++ L)) := rfl
+
+theorem format_timestampFracL (t : GoTime) :
+    format timestampFracL t = appendInt t.civil.year 4 ++ '-' :: (appendInt t.civil.month 2 ++ '-' ::
+      (appendInt t.civil.day 2 ++ 'T' :: (appendInt t.civil.hour 2 ++ ':' :: (appendInt t.civil.min 2 ++ ':' ::
+      (appendInt t.civil.sec 2 ++ (fmtFrac9 t.nsec ++ [])))))) := by
+  simp [format, timestampFracL, timestampL, ymdL, hmsL, fmtEl]
+
+theorem format_timestampTZOutL (t : GoTime) :
+    format timestampTZOutL t = appendInt t.civil.year 4 ++ '-' :: (appendInt t.civil.month 2 ++ '-' ::
+      (appendInt t.civil.day 2 ++ 'T' :: (appendInt t.civil.hour 2 ++ ':' :: (appendInt t.civil.min 2 ++ ':' ::
+      (appendInt t.civil.sec 2 ++ (fmtFrac9 t.nsec ++ fmtTz false .colon t.off)))))) := by
+  simp [format, timestampTZOutL, timestampFracL, timestampL, ymdL, hmsL, fmtEl]
+
+/-- all six fields of a wall-clock count with a year in 0..9999, as naturals -/
+theorem civil_nat (w : Int) (hy0 : 0 ≤ (civilOfUnix w).year) (hy1 : (civilOfUnix w).year ≤ 9999) :
+    ∃ y m dd h mi s : Nat, y < 10000 ∧ 1 ≤ m ∧ m ≤ 12 ∧ 1 ≤ dd ∧ dd < 100 ∧ (dd : Int) ≤ daysIn m y ∧
+      h < 24 ∧ mi < 60 ∧ s < 60 ∧
+      (civilOfUnix w).year = y ∧ (civilOfUnix w).month = m ∧ (civilOfUnix w).day = dd ∧
+      (civilOfUnix w).hour = h ∧ (civilOfUnix w).min = mi ∧ (civilOfUnix w).sec = s := by
+  obtain ⟨h, mi, s, hh, hmi, hs, eh, em, es⟩ := clock_nat w
+  obtain ⟨_, hm1, hm2, hd1, hd2⟩ := civilFromDays_spec (w / 86400)
+  have ey : (civilOfUnix w).year = (civilFromDays (w / 86400)).1 := rfl
+  have emo : (civilOfUnix w).month = (civilFromDays (w / 86400)).2.1 := rfl
+  have ed : (civilOfUnix w).day = (civilFromDays (w / 86400)).2.2 := rfl
+  rw [ey] at hy0 hy1
+  generalize civilFromDays (w / 86400) = c at *
+  obtain ⟨y, m, dd⟩ := c
+  simp only at *
+  have hd31 : daysIn m y ≤ 31 := by unfold daysIn; split <;> (try split) <;> omega
+  refine ⟨y.toNat, m.toNat, dd.toNat, h, mi, s, by omega, by omega, by omega, by omega, by omega, ?_, hh, hmi, hs,
+    by omega, by omega, by omega, eh, em, es⟩
+  have e1 : ((m.toNat : Nat) : Int) = m := by omega
+  have e2 : ((y.toNat : Nat) : Int) = y := by omega
+  rw [e1, e2]; omega
+
+theorem finishParse_civil (w : Int) (ns : Nat) (hns : ns < 1000000000) (y m dd h mi s : Nat) (o : Int)
+    (hd1 : 1 ≤ dd) (hd2 : (dd : Int) ≤ daysIn m y)
+    (ey : (civilOfUnix w).year = y) (emo : (civilOfUnix w).month = m) (ed : (civilOfUnix w).day = dd)
+    (eh : (civilOfUnix w).hour = h) (em : (civilOfUnix w).min = mi) (es : (civilOfUnix w).sec = s) :
+    finishParse { year := y, month := m, day := dd, hour := h, min := mi, sec := s, nsec := ns, zoneOffset := o } =
+      some (if o ≠ -1 then ⟨w - o, ns, o⟩ else ⟨w, ns, 0⟩) := by
+  have := dateWall_civilOfUnix w ns hns
+  rw [ey, emo, ed, eh, em, es] at this
+  have hv : ¬ (dd < 1 ∨ daysIn (m : Int) (y : Int) < (dd : Int)) := by omega
+  simp only [finishParse, this]
+  simp [hv]
+  refine ⟨⟨by omega, hd2⟩, ?_⟩
+  split <;> rfl
+
+/-- a `Timestamp` as `NewTimestamp` makes it, with a four-digit year -/
+structure TimestampStrWF (d : DateTime) : Prop where
+  wf : TimestampWF d
+  year0 : 0 ≤ (civil d).year
+  year1 : (civil d).year ≤ 9999
+
+/-- **C18, Timestamp**: `ParseTime(ts.String())` returns `ts` -/
+theorem parseTime_toString_timestamp (env : Env) (d : DateTime) (wf : TimestampStrWF d) :
+    parseTime env (toString d) (-1) = some d := by
+  cases d with | mk k w n o =>
+  obtain ⟨⟨hk, hn, ho⟩, hy0, hy1⟩ := wf
+  simp only at hk hn ho
+  subst hk; subst ho
+  simp only [civil, DateTime.t, GoTime.civil, Int.add_zero] at hy0 hy1
+  obtain ⟨y, m, dd, h, mi, s, hy, hm1, hm2, hd1, hd100, hd2, hh, hmi, hs, ey, emo, ed, eh, em, es⟩ :=
+    civil_nat w hy0 hy1
+  simp only [toString, outLayout, format_timestampFracL, DateTime.t, GoTime.civil, Int.add_zero, ey, emo, ed, eh, em, es]
+  rw [appendInt_four y hy, appendInt_two m (by omega), appendInt_two dd hd100, appendInt_two h (by omega),
+    appendInt_two mi (by omega), appendInt_two s (by omega)]
+  generalize hclock : d2 h ++ ':' :: (d2 mi ++ ':' :: (d2 s ++ (fmtFrac9 n ++ []))) = clock
+  have hymd : ∀ (L : Layout) (acc : Acc),
+      parseLayout (ymdL ++ L) acc (d4 y ++ '-' :: (d2 m ++ '-' :: (d2 dd ++ 'T' :: clock))) =
+        parseLayout L { acc with year := y, month := m, day := dd } ('T' :: clock) :=
+    fun L acc => parse_ymd L acc y m dd hy hm1 hm2 hd100 _
+  have hhms : ∀ (L : Layout) (hL : notFrac (nextStd L)) (acc : Acc) (hacc : acc.nsec = 0),
+      parseLayout (hmsL ++ L) acc clock = parseLayout L { acc with hour := h, min := mi, sec := s, nsec := n } [] :=
+    fun L hL acc hacc => hclock ▸ parse_hms L hL acc hacc h mi s n hh hmi hs hn [] cleanRest_nil
+  unfold parseTime
+  have e1 : goParse dateL (d4 y ++ '-' :: (d2 m ++ '-' :: (d2 dd ++ 'T' :: clock))) = none := by
+    have := hymd [] {}
+    rw [List.append_nil] at this
+    simp only [goParse, dateL, this]; rfl
+  have e2 : firstParse timeTZLayouts (d4 y ++ '-' :: (d2 m ++ '-' :: (d2 dd ++ 'T' :: clock))) = none := by
+    simp only [firstParse, timeTZLayouts, goParse, timeTZHourL, timeTZMinL, parse_hms_on_year _ _ y hy]
+  have e3 : goParse timeL (d4 y ++ '-' :: (d2 m ++ '-' :: (d2 dd ++ 'T' :: clock))) = none := by
+    have := parse_hms_on_year [] {} y hy ('-' :: (d2 m ++ '-' :: (d2 dd ++ 'T' :: clock)))
+    rw [List.append_nil] at this
+    simp only [goParse, timeL, this]
+  have hA : ∀ (st : TzStyle) (acc : Acc) (hacc : acc.nsec = 0),
+      parseLayout (.lit 'T' :: (hmsL ++ [.tz true st])) acc ('T' :: clock) = none := by
+    intro st acc hacc
+    rw [parseLayout_step (parseEl_lit 'T' (by decide) _ _ _), hhms _ rfl _ hacc, parse_tz_on_nil]
+  have hB : ∀ (L : Layout) (acc : Acc), parseLayout (.lit ' ' :: L) acc ('T' :: clock) = none :=
+    fun L acc => parseLayout_fail (parseEl_space_ne 'T' (by decide) _ _ _)
+  have e4 : firstParse timestampTZLayouts (d4 y ++ '-' :: (d2 m ++ '-' :: (d2 dd ++ 'T' :: clock))) = none := by
+    have hA' := fun st => hA st { year := y, month := m, day := dd } rfl
+    simp only [firstParse, timestampTZLayouts, goParse, timestampTZHourL, timestampTZMinL, timestampL_eq, hymd,
+      hA', hB]
+  have e5 : firstParse timestampLayouts (d4 y ++ '-' :: (d2 m ++ '-' :: (d2 dd ++ 'T' :: clock))) =
+      some ⟨w, n, 0⟩ := by
+    have hl : timestampL 'T' = timestampL 'T' ++ [] := (List.append_nil _).symm
+    simp only [firstParse, timestampLayouts, goParse]
+    rw [hl, timestampL_eq, hymd, parseLayout_step (parseEl_lit 'T' (by decide) _ _ _), hhms _ rfl _ rfl, parseLayout_nil]
+    simp only []
+    rw [finishParse_civil w n hn y m dd h mi s (-1) hd1 hd2 ey emo ed eh em es]
+    simp
+  rw [e1, e2, e3, e4, e5]
+  simp only []
+  rw [adjustPrecision_none, newTimestamp_eq _ hn]
+  simp
+
+/-- a `TimestampTZ` with a whole-minute offset and a four-digit year in its own offset -/
+structure TimestampTZStrWF (d : DateTime) : Prop where
+  kind : d.kind = .timestamptz
+  nsec : d.nsec < 1000000000
+  off : OffsetOK d.off
+  year0 : 0 ≤ (civil d).year
+  year1 : (civil d).year ≤ 9999
+
+/-- **C18, TimestampTZ**: `ParseTime(ts.String())` returns `ts` (same instant, same offset) -/
+theorem parseTime_toString_timestamptz (env : Env) (d : DateTime) (wf : TimestampTZStrWF d) :
+    parseTime env (toString d) (-1) = some d := by
+  cases d with | mk k u n o =>
+  obtain ⟨hk, hn, hoff, hy0, hy1⟩ := wf
+  simp only at hk hn hoff
+  subst hk
+  simp only [civil, DateTime.t, GoTime.civil] at hy0 hy1
+  obtain ⟨y, m, dd, h, mi, s, hy, hm1, hm2, hd1, hd100, hd2, hh, hmi, hs, ey, emo, ed, eh, em, es⟩ :=
+    civil_nat (u + o) hy0 hy1
+  simp only [toString, outLayout, format_timestampTZOutL, DateTime.t, GoTime.civil, ey, emo, ed, eh, em, es,
+    fmtTz_colon o hoff]
+  rw [appendInt_four y hy, appendInt_two m (by omega), appendInt_two dd hd100, appendInt_two h (by omega),
+    appendInt_two mi (by omega), appendInt_two s (by omega)]
+  have happ : tzStr o = tzStr o ++ [] := (List.append_nil _).symm
+  rw [happ]
+  generalize hclock : d2 h ++ ':' :: (d2 mi ++ ':' :: (d2 s ++ (fmtFrac9 n ++ (tzStr o ++ [])))) = clock
+  have hymd : ∀ (L : Layout) (acc : Acc),
+      parseLayout (ymdL ++ L) acc (d4 y ++ '-' :: (d2 m ++ '-' :: (d2 dd ++ 'T' :: clock))) =
+        parseLayout L { acc with year := y, month := m, day := dd } ('T' :: clock) :=
+    fun L acc => parse_ymd L acc y m dd hy hm1 hm2 hd100 _
+  have hhms : ∀ (L : Layout) (hL : notFrac (nextStd L)) (acc : Acc) (hacc : acc.nsec = 0),
+      parseLayout (hmsL ++ L) acc clock =
+        parseLayout L { acc with hour := h, min := mi, sec := s, nsec := n } (tzStr o ++ []) :=
+    fun L hL acc hacc => hclock ▸ parse_hms L hL acc hacc h mi s n hh hmi hs hn _ (cleanRest_tzStr o [])
+  unfold parseTime
+  have e1 : goParse dateL (d4 y ++ '-' :: (d2 m ++ '-' :: (d2 dd ++ 'T' :: clock))) = none := by
+    have := hymd [] {}
+    rw [List.append_nil] at this
+    simp only [goParse, dateL, this]; rfl
+  have e2 : firstParse timeTZLayouts (d4 y ++ '-' :: (d2 m ++ '-' :: (d2 dd ++ 'T' :: clock))) = none := by
+    simp only [firstParse, timeTZLayouts, goParse, timeTZHourL, timeTZMinL, parse_hms_on_year _ _ y hy]
+  have e3 : goParse timeL (d4 y ++ '-' :: (d2 m ++ '-' :: (d2 dd ++ 'T' :: clock))) = none := by
+    have := parse_hms_on_year [] {} y hy ('-' :: (d2 m ++ '-' :: (d2 dd ++ 'T' :: clock)))
+    rw [List.append_nil] at this
+    simp only [goParse, timeL, this]
+  have hne : o ≠ -1 := by have := hoff.minute; omega
+  have hShort : parseLayout (.lit 'T' :: (hmsL ++ [.tz true .short])) { year := y, month := m, day := dd }
+      ('T' :: clock) = none := by
+    rw [parseLayout_step (parseEl_lit 'T' (by decide) _ _ _), hhms _ rfl _ rfl, parse_tz_short_fails]
+  have hB : ∀ (L : Layout) (acc : Acc), parseLayout (.lit ' ' :: L) acc ('T' :: clock) = none :=
+    fun L acc => parseLayout_fail (parseEl_space_ne 'T' (by decide) _ _ _)
+  have hColon : parseLayout (.lit 'T' :: (hmsL ++ [.tz true .colon])) { year := y, month := m, day := dd }
+      ('T' :: clock) =
+      some { year := y, month := m, day := dd, hour := h, min := mi, sec := s, nsec := n, zoneOffset := o } := by
+    rw [parseLayout_step (parseEl_lit 'T' (by decide) _ _ _), hhms _ rfl _ rfl,
+      parseLayout_step (parseEl_tz_colon _ _ o hoff []), parseLayout_nil]
+  have e4 : firstParse timestampTZLayouts (d4 y ++ '-' :: (d2 m ++ '-' :: (d2 dd ++ 'T' :: clock))) =
+      some ⟨u, n, o⟩ := by
+    simp only [firstParse, timestampTZLayouts, goParse, timestampTZHourL, timestampTZMinL, timestampL_eq, hymd,
+      hShort, hB, hColon]
+    rw [finishParse_civil (u + o) n hn y m dd h mi s o hd1 hd2 ey emo ed eh em es]
+    simp [hne]
+  rw [e1, e2, e3, e4]
+  simp only []
+  rw [adjustPrecision_none, newTimestampTZ_eq _ hn]
+  rfl
+end Time
+end Sqljson
+
+namespace Sqljson
+namespace Time
+
+/-! ## Round trip `UnmarshalJSON(MarshalJSON(v)) = v` -/
+
+/-- the byte of an ASCII character -/
+def b8 (c : Char) : UInt8 := UInt8.ofNat c.toNat
+
+/-- the bytes of an ASCII string -/
+def asciiBytes (l : List Char) : List UInt8 := l.map b8
+
+/-- characters the canonical output consists of -/
+def OutChar (c : Char) : Prop := isDigit c = true ∨ c = ':' ∨ c = '.' ∨ c = '-' ∨ c = '+' ∨ c = 'T'
+
+theorem outChar_lt (c : Char) (h : OutChar c) : c.toNat < 128 := by
+  rcases h with h | h | h | h | h | h
+  · simp only [isDigit, Bool.and_eq_true, decide_eq_true_eq] at h
+    have := h.2; have : c.toNat ≤ '9'.toNat := this; simp at this; omega
+  all_goals subst h; decide
+
+theorem ofNat_b8 (c : Char) (h : c.toNat < 128) : Char.ofNat (b8 c).toNat = c := by
+  have : (b8 c).toNat = c.toNat := by
+    simp only [b8, UInt8.toNat_ofNat']; omega
+  rw [this]; exact Char.ofNat_toNat c
+
+theorem bytesToChars_asciiBytes (l : List Char) (h : ∀ c ∈ l, OutChar c) : bytesToChars (asciiBytes l) = l := by
+  induction l with
+  | nil => rfl
+  | cons c cs ih =>
+    simp only [bytesToChars, asciiBytes, List.map_cons, List.cons.injEq]
+    exact ⟨ofNat_b8 c (outChar_lt c (h c (by simp))), ih (fun x hx => h x (by simp [hx]))⟩
+
+theorem unquote_quoted (S : List Char) :
+    unquote (asciiBytes ('"' :: S ++ ['"'])) = some (asciiBytes S) := by
+  simp only [unquote, asciiBytes, List.map_cons, List.map_append, List.length_cons, List.length_append,
+    List.length_map, List.length_nil]
+  have : ¬ (S.length + 1 + 1 < 2) := by omega
+  simp only [this, if_false]
+  have e : S.length + 1 + 1 - 2 = (List.map b8 S).length := by simp
+  rw [e]
+  have : List.drop 1 (b8 '"' :: List.map b8 S ++ b8 '"' :: List.map b8 []) = List.map b8 S ++ [b8 '"'] := rfl
+  rw [this, List.take_left']
+  rfl
+
+theorem parseEl_second_fracnext (acc : Acc) (s : Nat) (hs : s < 60) (v : List Char) :
+    parseEl .second (some .frac9) acc (d2 s ++ v) = some ({ acc with sec := s }, v) := by
+  have h0 : ¬ 60 ≤ s := by omega
+  simp [parseEl, getnum_two s (by omega), h0, El.isFrac]
+
+theorem parseEl_frac9 (nx : Option El) (acc : Acc) (ns : Nat) (hns : ns < 1000000000)
+    (r : List Char) (hr : CleanRest r) :
+    parseEl .frac9 nx acc (fmtFrac9 ns ++ r) = some ({ acc with nsec := if ns = 0 then acc.nsec else ns }, r) := by
+  by_cases hz : ns = 0
+  · subst hz
+    have : fmtFrac9 0 = [] := rfl
+    simp [parseEl, this, hr.nofrac]
+  · obtain ⟨h1, h2⟩ := frac_roundtrip ns hns hz r hr.nodigit
+    simp [parseEl, h1, h2, hz]
+
+/-- `hh:mm:ss[.fffffffff]` against `15:04:05.999999999…` -/
+theorem parse_hms_frac (L : Layout) (acc : Acc) (hacc : acc.nsec = 0) (h mi s ns : Nat)
+    (hh : h < 24) (hmi : mi < 60) (hs : s < 60) (hns : ns < 1000000000) (r : List Char) (hr : CleanRest r) :
+    parseLayout (hmsL ++ (.frac9 :: L)) acc (d2 h ++ ':' :: (d2 mi ++ ':' :: (d2 s ++ (fmtFrac9 ns ++ r)))) =
+      parseLayout L { acc with hour := h, min := mi, sec := s, nsec := ns } r := by
+  rw [hmsL_append, parseLayout_step (parseEl_hour _ _ h hh _), parseLayout_step (parseEl_lit ':' (by decide) _ _ _),
+    parseLayout_step (parseEl_minute _ _ mi hmi _), parseLayout_step (parseEl_lit ':' (by decide) _ _ _)]
+  rw [parseLayout_step (rest := .frac9 :: L) (parseEl_second_fracnext _ s hs _),
+    parseLayout_step (parseEl_frac9 _ _ ns hns r hr)]
+  congr 1
+  by_cases hz : ns = 0 <;> simp [hz, hacc]
+
+theorem outChar_dc (n : Nat) (h : n < 10) : OutChar (dc n) := Or.inl (isDigit_dc n h)
+
+theorem all_d2 (n : Nat) (h : n < 100) : ∀ c ∈ d2 n, OutChar c := by
+  intro c hc
+  simp only [d2, List.mem_cons, List.mem_nil_iff, or_false] at hc
+  rcases hc with hc | hc <;> subst hc <;> exact outChar_dc _ (by omega)
+
+theorem all_d4 (n : Nat) (h : n < 10000) : ∀ c ∈ d4 n, OutChar c := by
+  intro c hc
+  simp only [d4, List.mem_cons, List.mem_nil_iff, or_false] at hc
+  rcases hc with hc | hc | hc | hc <;> subst hc <;> exact outChar_dc _ (by omega)
+
+theorem all_frac (ns : Nat) (h : ns < 1000000000) : ∀ c ∈ fmtFrac9 ns, OutChar c := by
+  intro c hc
+  unfold fmtFrac9 at hc
+  split at hc
+  · cases hc
+  · rw [appendInt_nat 9 ns (by omega) (by omega)] at hc
+    simp only [List.mem_cons] at hc
+    rcases hc with hc | hc
+    · subst hc; exact Or.inr (Or.inr (Or.inl rfl))
+    · exact Or.inl (allDigits_trimZeros _ (allDigits_padDigits 9 ns) c hc)
+
+theorem all_tzStr (off : Int) (h : OffsetOK off) : ∀ c ∈ tzStr off, OutChar c := by
+  have hb := h.bound
+  intro c hc
+  simp only [tzStr, List.mem_cons, List.mem_append, List.mem_nil_iff, or_false] at hc
+  rcases hc with hc | hc | hc | hc
+  · subst hc; unfold sgnChar; split
+    · exact Or.inr (Or.inr (Or.inr (Or.inl rfl)))
+    · exact Or.inr (Or.inr (Or.inr (Or.inr (Or.inl rfl))))
+  · exact all_d2 _ (by omega) c hc
+  · subst hc; exact Or.inr (Or.inl rfl)
+  · exact all_d2 _ (by omega) c hc
+
+/-- the shape shared by the five `UnmarshalJSON ∘ MarshalJSON` proofs -/
+theorem unmarshal_marshal_shape (d : DateTime) (hall : ∀ c ∈ toString d, OutChar c) :
+    unquote (asciiBytes (marshalJSON d)) = some (asciiBytes (toString d)) ∧
+      bytesToChars (asciiBytes (toString d)) = toString d :=
+  ⟨unquote_quoted _, bytesToChars_asciiBytes _ hall⟩
+
+/-- **C18, Date**: `UnmarshalJSON(MarshalJSON(d)) = d` -/
+theorem unmarshal_marshal_date (d : DateTime) (wf : DateWF d)
+    (hy0 : 0 ≤ (civil d).year) (hy1 : (civil d).year ≤ 9999) :
+    unmarshalJSON .date (asciiBytes (marshalJSON d)) = .ok d := by
+  cases d with | mk k s n o =>
+  obtain ⟨hk, hn, ho, hm⟩ := wf
+  simp only at hk hn ho hm
+  subst hk; subst hn; subst ho
+  obtain ⟨hday, hm1, hm2, hd1, hd2⟩ := civilFromDays_spec (s / 86400)
+  simp only [civil, DateTime.t, GoTime.civil, Int.add_zero, civilOfUnix] at hy0 hy1
+  have hstr : toString ⟨.date, s, 0, 0⟩ = appendInt (civilFromDays (s / 86400)).1 4 ++ '-' ::
+      (appendInt (civilFromDays (s / 86400)).2.1 2 ++ '-' :: (appendInt (civilFromDays (s / 86400)).2.2 2 ++ [])) := by
+    simp only [toString, outLayout, format_dateL, DateTime.t, GoTime.civil, Int.add_zero, civilOfUnix]
+  generalize civilFromDays (s / 86400) = c at *
+  obtain ⟨y, m, dd⟩ := c
+  simp only at *
+  obtain ⟨yN, hyN⟩ : ∃ yN : Nat, y = yN := ⟨y.toNat, by omega⟩
+  obtain ⟨mN, hmN⟩ : ∃ mN : Nat, m = mN := ⟨m.toNat, by omega⟩
+  obtain ⟨dN, hdN⟩ : ∃ dN : Nat, dd = dN := ⟨dd.toNat, by omega⟩
+  subst hyN; subst hmN; subst hdN
+  have hd100 : dN < 100 := by
+    have : daysIn (mN : Int) (yN : Int) ≤ 31 := by unfold daysIn; split <;> (try split) <;> omega
+    omega
+  rw [appendInt_four yN (by omega), appendInt_two mN (by omega), appendInt_two dN hd100] at hstr
+  have hall : ∀ c ∈ toString ⟨.date, s, 0, 0⟩, OutChar c := by
+    rw [hstr]; intro c hc
+    simp only [List.mem_append, List.mem_cons, List.mem_nil_iff, or_false] at hc
+    rcases hc with hc | hc | hc | hc | hc
+    · exact all_d4 _ (by omega) c hc
+    · subst hc; exact Or.inr (Or.inr (Or.inr (Or.inl rfl)))
+    · exact all_d2 _ (by omega) c hc
+    · subst hc; exact Or.inr (Or.inr (Or.inr (Or.inl rfl)))
+    · exact all_d2 _ hd100 c hc
+  obtain ⟨e1, e2⟩ := unmarshal_marshal_shape _ hall
+  simp only [unmarshalJSON, e1, e2]
+  rw [hstr, goParse_date yN mN dN (by omega) (by omega) (by omega) (by omega) hd2]
+  simp only [parsedOr, newDate_eq, Int.add_zero]
+  rw [hday]
+  have : s / 86400 * 86400 / 86400 * 86400 = s := by omega
+  rw [this]
+
+/-! ### which zone layout `UnmarshalJSON` picks for the canonical output -/
+
+theorem b8_toNat (c : Char) (h : c.toNat < 128) : (b8 c).toNat = c.toNat := by
+  simp only [b8, UInt8.toNat_ofNat']; omega
+
+/-- digits, `:` and `.` are not signs -/
+def ClockChar (c : Char) : Prop := isDigit c = true ∨ c = ':' ∨ c = '.'
+
+theorem clockChar_range (c : Char) (h : ClockChar c) : 46 ≤ c.toNat ∧ c.toNat ≤ 58 := by
+  rcases h with h | h | h
+  · simp only [isDigit, Bool.and_eq_true, decide_eq_true_eq] at h
+    have h1 : '0'.toNat ≤ c.toNat := h.1
+    have h2 : c.toNat ≤ '9'.toNat := h.2
+    simp at h1 h2; omega
+  · subst h; decide
+  · subst h; decide
+
+theorem b8_clock_nonsign (c : Char) (h : ClockChar c) : (b8 c == 45 || b8 c == 43) = false := by
+  have hr := clockChar_range c h
+  have ht := b8_toNat c (by omega)
+  have h1 : b8 c ≠ 45 := fun e => by rw [e] at ht; simp at ht; omega
+  have h2 : b8 c ≠ 43 := fun e => by rw [e] at ht; simp at ht; omega
+  simp [h1, h2]
+
+theorem b8_sgn (off : Int) : (b8 (sgnChar off) == 45 || b8 (sgnChar off) == 43) = true := by
+  unfold sgnChar; split <;> decide
+
+theorem signAt_eq (str : List UInt8) (k : Nat) (hk : k ≤ str.length) :
+    signAt str k = (str[str.length - k]?).map (fun b => b == 45 || b == 43) := by
+  have : ¬ str.length < k := by omega
+  simp only [signAt, this, if_false]
+  cases str[str.length - k]? <;> rfl
+
+theorem tzStr_length (off : Int) : (tzStr off).length = 6 := rfl
+
+/-- for `… ':' ss [.fff] ±hh:mm` both `UnmarshalJSON` methods choose the `Z07:00` layout -/
+theorem style_of_canonical (P Q : List Char) (off : Int) (hQ : ∀ c ∈ Q, ClockChar c) (hQ3 : 3 ≤ Q.length) :
+    timestampTZStyle (asciiBytes (P ++ (Q ++ (tzStr off ++ [])))) = .colon := by
+  have hlen : (asciiBytes (P ++ (Q ++ (tzStr off ++ [])))).length = P.length + Q.length + 6 := by
+    simp [asciiBytes, tzStr_length]; omega
+  have h9 : signAt (asciiBytes (P ++ (Q ++ (tzStr off ++ [])))) 9 = some false := by
+    rw [signAt_eq _ 9 (by omega), hlen]
+    simp only [asciiBytes, List.getElem?_map]
+    have e : P.length + Q.length + 6 - 9 = P.length + (Q.length - 3) := by omega
+    rw [e, List.getElem?_append_right (by omega)]
+    have e2 : P.length + (Q.length - 3) - P.length = Q.length - 3 := by omega
+    rw [e2, List.getElem?_append_left (by omega)]
+    have hlt : Q.length - 3 < Q.length := by omega
+    rw [List.getElem?_eq_getElem hlt]
+    simp only [Option.map_some]
+    rw [b8_clock_nonsign _ (hQ _ (List.getElem_mem hlt))]
+  have h6 : signAt (asciiBytes (P ++ (Q ++ (tzStr off ++ [])))) 6 = some true := by
+    rw [signAt_eq _ 6 (by omega), hlen]
+    simp only [asciiBytes, List.getElem?_map]
+    have e : P.length + Q.length + 6 - 6 = P.length + Q.length := by omega
+    rw [e, List.getElem?_append_right (by omega)]
+    have e2 : P.length + Q.length - P.length = Q.length := by omega
+    rw [e2, List.getElem?_append_right (by omega)]
+    simp only [Nat.sub_self, tzStr, List.cons_append, List.getElem?_cons_zero, Option.map_some]
+    rw [b8_sgn]
+  unfold timestampTZStyle
+  rw [h9, h6, hlen]
+  have : 9 ≤ P.length + Q.length + 6 := by omega
+  simp
+
+theorem all_cons {P : Char → Prop} (c : Char) (l : List Char) (hc : P c) (hl : ∀ x ∈ l, P x) : ∀ x ∈ c :: l, P x := by
+  intro x hx; simp only [List.mem_cons] at hx; rcases hx with h | h; · subst h; exact hc
+  exact hl x h
+
+theorem all_app {P : Char → Prop} (a b : List Char) (ha : ∀ x ∈ a, P x) (hb : ∀ x ∈ b, P x) : ∀ x ∈ a ++ b, P x := by
+  intro x hx; simp only [List.mem_append] at hx; rcases hx with h | h; · exact ha x h
+  exact hb x h
+
+theorem outColon : OutChar ':' := Or.inr (Or.inl rfl)
+theorem outDash : OutChar '-' := Or.inr (Or.inr (Or.inr (Or.inl rfl)))
+theorem outT : OutChar 'T' := Or.inr (Or.inr (Or.inr (Or.inr (Or.inr rfl))))
+
+theorem all_clock (h mi s n : Nat) (hh : h < 24) (hmi : mi < 60) (hs : s < 60) (hn : n < 1000000000)
+    (R : List Char) (hR : ∀ c ∈ R, OutChar c) :
+    ∀ c ∈ d2 h ++ ':' :: (d2 mi ++ ':' :: (d2 s ++ (fmtFrac9 n ++ R))), OutChar c :=
+  all_app _ _ (all_d2 h (by omega)) (all_cons _ _ outColon (all_app _ _ (all_d2 mi (by omega))
+    (all_cons _ _ outColon (all_app _ _ (all_d2 s (by omega)) (all_app _ _ (all_frac n hn) hR)))))
+
+theorem all_ymd (y m dd : Nat) (hy : y < 10000) (hm : m < 100) (hd : dd < 100) (R : List Char)
+    (hR : ∀ c ∈ R, OutChar c) : ∀ c ∈ d4 y ++ '-' :: (d2 m ++ '-' :: (d2 dd ++ R)), OutChar c :=
+  all_app _ _ (all_d4 y hy) (all_cons _ _ outDash (all_app _ _ (all_d2 m hm)
+    (all_cons _ _ outDash (all_app _ _ (all_d2 dd hd) hR))))
+
+theorem clock_tail (s n : Nat) (hs : s < 60) (hn : n < 1000000000) :
+    (∀ c ∈ ':' :: (d2 s ++ fmtFrac9 n), ClockChar c) ∧ 3 ≤ (':' :: (d2 s ++ fmtFrac9 n)).length := by
+  constructor
+  · refine all_cons (P := ClockChar) ':' _ (Or.inr (Or.inl rfl)) ?_
+    refine all_app (P := ClockChar) _ _ ?_ ?_
+    · intro c hc
+      simp only [d2, List.mem_cons, List.mem_nil_iff, or_false] at hc
+      rcases hc with hc | hc <;> subst hc <;> exact Or.inl (isDigit_dc _ (by omega))
+    · intro c hc
+      unfold fmtFrac9 at hc
+      split at hc
+      · cases hc
+      · rw [appendInt_nat 9 n (by omega) (by omega)] at hc
+        simp only [List.mem_cons] at hc
+        rcases hc with hc | hc
+        · subst hc; exact Or.inr (Or.inr rfl)
+        · exact Or.inl (allDigits_trimZeros _ (allDigits_padDigits 9 n) c hc)
+  · simp [d2]
+
+/-- **C18, Time**: `UnmarshalJSON(MarshalJSON(t)) = t` -/
+theorem unmarshal_marshal_time (d : DateTime) (wf : TimeWF d) :
+    unmarshalJSON .time (asciiBytes (marshalJSON d)) = .ok d := by
+  cases d with | mk k w n o =>
+  obtain ⟨hk, ho, hn, hlo, hhi⟩ := wf
+  simp only at hk ho hn hlo hhi
+  subst hk; subst ho
+  obtain ⟨h, mi, s, hh, hmi, hs, eh, em, es⟩ := clock_nat w
+  have hstr : toString ⟨.time, w, n, 0⟩ = d2 h ++ ':' :: (d2 mi ++ ':' :: (d2 s ++ (fmtFrac9 n ++ []))) := by
+    simp only [toString, outLayout, format_timeFracL, DateTime.t, GoTime.civil, Int.add_zero, eh, em, es]
+    rw [appendInt_two h (by omega), appendInt_two mi (by omega), appendInt_two s (by omega)]
+  have hall : ∀ c ∈ toString ⟨.time, w, n, 0⟩, OutChar c := by
+    rw [hstr]; exact all_clock h mi s n hh hmi hs hn [] (fun c hc => by cases hc)
+  obtain ⟨e1, e2⟩ := unmarshal_marshal_shape _ hall
+  simp only [unmarshalJSON, e1, e2]
+  have hl : timeFracL = hmsL ++ (.frac9 :: []) := rfl
+  rw [hstr, goParse, hl, parse_hms_frac [] {} rfl h mi s n hh hmi hs hn [] cleanRest_nil, parseLayout_nil]
+  simp only []
+  rw [finishParse_clock h mi s n w hn eh em es]
+  simp only [parsedOr]
+  rw [newTime_eq _ hn]
+  simp only [Int.add_zero, yearZero] at *
+  have e : (-62167219200 + w % 86400) % 86400 = w % 86400 := by omega
+  rw [e]
+  have : -62167219200 + w % 86400 = w := by omega
+  rw [this]
+
+/-- **C18, TimeTZ**: `UnmarshalJSON(MarshalJSON(t)) = t` for whole-minute offsets up to ±24:59 -/
+theorem unmarshal_marshal_timetz (d : DateTime) (wf : TimeTZWF d) :
+    unmarshalJSON .timetz (asciiBytes (marshalJSON d)) = .ok d := by
+  cases d with | mk k u n o =>
+  obtain ⟨hk, hn, hoff, hlo, hhi⟩ := wf
+  simp only at hk hn hoff hlo hhi
+  subst hk
+  obtain ⟨h, mi, s, hh, hmi, hs, eh, em, es⟩ := clock_nat (u + o)
+  have hstr : toString ⟨.timetz, u, n, o⟩ =
+      d2 h ++ ':' :: (d2 mi ++ ':' :: (d2 s ++ (fmtFrac9 n ++ (tzStr o ++ [])))) := by
+    simp only [toString, outLayout, format_timeTZOutL, DateTime.t, GoTime.civil, eh, em, es, fmtTz_colon o hoff]
+    rw [appendInt_two h (by omega), appendInt_two mi (by omega), appendInt_two s (by omega), List.append_nil]
+  have hall : ∀ c ∈ toString ⟨.timetz, u, n, o⟩, OutChar c := by
+    rw [hstr]; exact all_clock h mi s n hh hmi hs hn _ (all_app _ _ (all_tzStr o hoff) (fun c hc => by cases hc))
+  obtain ⟨e1, e2⟩ := unmarshal_marshal_shape _ hall
+  obtain ⟨hQ, hQ3⟩ := clock_tail s n hs hn
+  have hstyle : timestampTZStyle (asciiBytes (toString ⟨.timetz, u, n, o⟩)) = .colon := by
+    have hre : toString ⟨.timetz, u, n, o⟩ =
+        (d2 h ++ ':' :: d2 mi) ++ ((':' :: (d2 s ++ fmtFrac9 n)) ++ (tzStr o ++ [])) := by
+      rw [hstr]; simp [List.append_assoc]
+    rw [hre]; exact style_of_canonical _ _ o hQ hQ3
+  simp only [unmarshalJSON, e1, e2, hstyle]
+  have hl : timeTZFracL .colon = hmsL ++ (.frac9 :: [.tz true .colon]) := rfl
+  have hne : o ≠ -1 := by have := hoff.minute; omega
+  rw [hstr, goParse, hl, parse_hms_frac _ {} rfl h mi s n hh hmi hs hn _ (cleanRest_tzStr o []),
+    parseLayout_step (parseEl_tz_colon _ _ o hoff []), parseLayout_nil]
+  simp only []
+  rw [finishParse_clock_off h mi s n (u + o) o hn hne eh em es]
+  simp only [parsedOr, mkDT, yearZero] at *
+  have : -62167219200 + (u + o) % 86400 - o = u := by omega
+  rw [this]
+
+/-- **C18, Timestamp**: `UnmarshalJSON(MarshalJSON(ts)) = ts` -/
+theorem unmarshal_marshal_timestamp (d : DateTime) (wf : TimestampStrWF d) :
+    unmarshalJSON .timestamp (asciiBytes (marshalJSON d)) = .ok d := by
+  cases d with | mk k w n o =>
+  obtain ⟨⟨hk, hn, ho⟩, hy0, hy1⟩ := wf
+  simp only at hk hn ho
+  subst hk; subst ho
+  simp only [civil, DateTime.t, GoTime.civil, Int.add_zero] at hy0 hy1
+  obtain ⟨y, m, dd, h, mi, s, hy, hm1, hm2, hd1, hd100, hd2, hh, hmi, hs, ey, emo, ed, eh, em, es⟩ :=
+    civil_nat w hy0 hy1
+  have hstr : toString ⟨.timestamp, w, n, 0⟩ = d4 y ++ '-' :: (d2 m ++ '-' :: (d2 dd ++ 'T' ::
+      (d2 h ++ ':' :: (d2 mi ++ ':' :: (d2 s ++ (fmtFrac9 n ++ [])))))) := by
+    simp only [toString, outLayout, format_timestampFracL, DateTime.t, GoTime.civil, Int.add_zero, ey, emo, ed, eh, em, es]
+    rw [appendInt_four y hy, appendInt_two m (by omega), appendInt_two dd hd100, appendInt_two h (by omega),
+      appendInt_two mi (by omega), appendInt_two s (by omega)]
+  have hall : ∀ c ∈ toString ⟨.timestamp, w, n, 0⟩, OutChar c := by
+    rw [hstr]
+    exact all_ymd y m dd hy (by omega) hd100 _ (all_cons _ _ outT
+      (all_clock h mi s n hh hmi hs hn [] (fun c hc => by cases hc)))
+  obtain ⟨e1, e2⟩ := unmarshal_marshal_shape _ hall
+  simp only [unmarshalJSON, e1, e2]
+  have hl : timestampFracL = ymdL ++ (.lit 'T' :: (hmsL ++ (.frac9 :: []))) := rfl
+  rw [hstr, goParse, hl, parse_ymd _ _ y m dd hy hm1 hm2 hd100, parseLayout_step (parseEl_lit 'T' (by decide) _ _ _),
+    parse_hms_frac [] _ rfl h mi s n hh hmi hs hn [] cleanRest_nil, parseLayout_nil]
+  simp only []
+  rw [finishParse_civil w n hn y m dd h mi s (-1) hd1 hd2 ey emo ed eh em es]
+  simp only [parsedOr]
+  rw [newTimestamp_eq _ (by simpa using hn)]
+  simp
+
+/-- **C18, TimestampTZ**: `UnmarshalJSON(MarshalJSON(ts)) = ts` (same instant, same offset) -/
+theorem unmarshal_marshal_timestamptz (d : DateTime) (wf : TimestampTZStrWF d) :
+    unmarshalJSON .timestamptz (asciiBytes (marshalJSON d)) = .ok d := by
+  cases d with | mk k u n o =>
+  obtain ⟨hk, hn, hoff, hy0, hy1⟩ := wf
+  simp only at hk hn hoff
+  subst hk
+  simp only [civil, DateTime.t, GoTime.civil] at hy0 hy1
+  obtain ⟨y, m, dd, h, mi, s, hy, hm1, hm2, hd1, hd100, hd2, hh, hmi, hs, ey, emo, ed, eh, em, es⟩ :=
+    civil_nat (u + o) hy0 hy1
+  have hstr : toString ⟨.timestamptz, u, n, o⟩ = d4 y ++ '-' :: (d2 m ++ '-' :: (d2 dd ++ 'T' ::
+      (d2 h ++ ':' :: (d2 mi ++ ':' :: (d2 s ++ (fmtFrac9 n ++ (tzStr o ++ []))))))) := by
+    simp only [toString, outLayout, format_timestampTZOutL, DateTime.t, GoTime.civil, ey, emo, ed, eh, em, es,
+      fmtTz_colon o hoff]
+    rw [appendInt_four y hy, appendInt_two m (by omega), appendInt_two dd hd100, appendInt_two h (by omega),
+      appendInt_two mi (by omega), appendInt_two s (by omega), List.append_nil]
+  have hall : ∀ c ∈ toString ⟨.timestamptz, u, n, o⟩, OutChar c := by
+    rw [hstr]
+    exact all_ymd y m dd hy (by omega) hd100 _ (all_cons _ _ outT
+      (all_clock h mi s n hh hmi hs hn _ (all_app _ _ (all_tzStr o hoff) (fun c hc => by cases hc))))
+  obtain ⟨e1, e2⟩ := unmarshal_marshal_shape _ hall
+  obtain ⟨hQ, hQ3⟩ := clock_tail s n hs hn
+  have hstyle : timestampTZStyle (asciiBytes (toString ⟨.timestamptz, u, n, o⟩)) = .colon := by
+    have hre : toString ⟨.timestamptz, u, n, o⟩ =
+        (d4 y ++ '-' :: (d2 m ++ '-' :: (d2 dd ++ 'T' :: (d2 h ++ ':' :: d2 mi)))) ++
+          ((':' :: (d2 s ++ fmtFrac9 n)) ++ (tzStr o ++ [])) := by
+      rw [hstr]; simp [List.append_assoc]
+    rw [hre]; exact style_of_canonical _ _ o hQ hQ3
+  simp only [unmarshalJSON, e1, e2, hstyle]
+  have hl : timestampTZFracL .colon = ymdL ++ (.lit 'T' :: (hmsL ++ (.frac9 :: [.tz true .colon]))) := rfl
+  have hne : o ≠ -1 := by have := hoff.minute; omega
+  rw [hstr, goParse, hl, parse_ymd _ _ y m dd hy hm1 hm2 hd100, parseLayout_step (parseEl_lit 'T' (by decide) _ _ _),
+    parse_hms_frac _ _ rfl h mi s n hh hmi hs hn _ (cleanRest_tzStr o []),
+    parseLayout_step (parseEl_tz_colon _ _ o hoff []), parseLayout_nil]
+  simp only []
+  rw [finishParse_civil (u + o) n hn y m dd h mi s o hd1 hd2 ey emo ed eh em es]
+  simp [parsedOr, mkDT, hne]
+end Time
+end Sqljson
 
 namespace Sqljson
 namespace C18
@@ -29,6 +1261,43 @@ open Time Exec
 
 /-- `.string()` inside a path prints the same text as `String()` -/
 theorem path_string_same (d : DateTime) : convString (.dt d) = .val (.str (Time.toString d)) := rfl
+
+/-- the values `String()` / `MarshalJSON` are specified for: canonical representation (as the
+    constructors produce it), `nsec < 10⁹`, year 0..9999 in the value's own offset, whole-minute
+    offset of at most ±24:59 -/
+def StrWF (d : DateTime) : Prop :=
+  match d.kind with
+  | .date => DateWF d ∧ 0 ≤ (civil d).year ∧ (civil d).year ≤ 9999
+  | .time => TimeWF d
+  | .timetz => TimeTZWF d
+  | .timestamp => TimestampStrWF d
+  | .timestamptz => TimestampTZStrWF d
+
+/-- **C18**: `ParseTime(v.String())` returns an equal value of the same type, for all five types -/
+theorem parse_string_roundtrip (env : Time.Env) (d : DateTime) (h : StrWF d) :
+    parseTime env (Time.toString d) (-1) = some d := by
+  cases d with | mk k s n o =>
+  cases k <;> simp only [StrWF] at h
+  · exact parseTime_toString_date env (-1) _ h.1 h.2.1 h.2.2
+  · exact parseTime_toString_time env _ h
+  · exact parseTime_toString_timetz env _ h
+  · exact parseTime_toString_timestamp env _ h
+  · exact parseTime_toString_timestamptz env _ h
+
+/-- **C18**: `UnmarshalJSON(MarshalJSON(v))` returns an equal value, for all five types -/
+theorem json_roundtrip (d : DateTime) (h : StrWF d) :
+    unmarshalJSON d.kind (asciiBytes (marshalJSON d)) = .ok d := by
+  cases d with | mk k s n o =>
+  cases k <;> simp only [StrWF] at h
+  · exact unmarshal_marshal_date _ h.1 h.2.1 h.2.2
+  · exact unmarshal_marshal_time _ h
+  · exact unmarshal_marshal_timetz _ h
+  · exact unmarshal_marshal_timestamp _ h
+  · exact unmarshal_marshal_timestamptz _ h
+
+/-- hostile input: every byte string gives a value or an error, never a panic -/
+theorem unmarshal_total (k : DTKind) (data : List UInt8) : unmarshalJSON k data ≠ .panic :=
+  unmarshalJSON_never_panics k data
 
 end C18
 end Sqljson
